@@ -45,8 +45,9 @@ def norm_msg(s):
 
 
 def apply(cx, rules, tag=None):
-    """Quick tier: the stable-like dev configuration. Thorough tier: also macro_sep and the release profile."""
-    tags = [tag] if tag else (["dev-none-stable"] if cx.tier != "thorough" else ["dev-none-stable", "dev-msep-stable", "rel-none-stable"])
+    """Quick tier: the stable-like dev and release configurations (debug assertions compiled in / out: a side effect
+    hidden in a debug_assert!, or a release-only fast path, changes the paths).  Thorough tier: also macro_sep."""
+    tags = [tag] if tag else (["dev-none-stable", "rel-none-stable"] if cx.tier != "thorough" else ["dev-none-stable", "rel-none-stable", "dev-msep-stable"])
     for t in tags:
         _apply_one(cx, rules, t)
 
